@@ -71,7 +71,7 @@ static std::string cfg_to_json(const SimConfig& c) {
   jnum(s, "max_call_steps", c.max_call_steps, f); jnum(s, "max_run_steps", c.max_run_steps, f);
   jnum(s, "clock_start_ns", c.clock_start_ns, f); jnum(s, "tick_ns", c.tick_ns, f);
   jint(s, "overcommit", c.overcommit, f); jint(s, "place_policy", c.place_policy, f); jdbl(s, "place_unaligned_p", c.place_unaligned_p, f);
-  jint(s, "madv_free_mode", c.madv_free_mode, f); jint(s, "thp_einval", c.thp_einval, f); jint(s, "hugetlb", c.hugetlb, f); jint(s, "stable_sched", c.stable_sched, f); jnum(s, "hold_steps", c.hold_steps, f); jint(s, "entropy_fail", c.entropy_fail, f);
+  jint(s, "madv_free_mode", c.madv_free_mode, f); jint(s, "thp_einval", c.thp_einval, f); jint(s, "hugetlb", c.hugetlb, f); jint(s, "stable_sched", c.stable_sched, f); jnum(s, "hold_steps", c.hold_steps, f); jdbl(s, "sb_p", c.sb_p, f); jint(s, "entropy_fail", c.entropy_fail, f);
   jdbl(s, "wall_limit_s", c.wall_limit_s, f);
   s += ",\"hot_funcs\":["; for (size_t i = 0; i < c.hot_funcs.size(); i++) { if (i) s += ","; s += "\"" + c.hot_funcs[i] + "\""; } s += "]";
   s += "}"; return s;
@@ -127,7 +127,7 @@ static void cfg_from_json(const JV& j, SimConfig& c) {
   G(pct_depth, (int)v->i64()) G(pct_horizon, v->u64()) G(spurious_p, v->dbl())
   G(max_call_steps, v->u64()) G(max_run_steps, v->u64()) G(clock_start_ns, v->u64()) G(tick_ns, v->u64())
   G(overcommit, (int)v->i64()) G(place_policy, (int)v->i64()) G(place_unaligned_p, v->dbl())
-  G(madv_free_mode, (int)v->i64()) G(thp_einval, (int)v->i64()) G(hugetlb, (int)v->i64()) G(stable_sched, (int)v->i64()) G(hold_steps, v->u64()) G(entropy_fail, (int)v->i64()) G(wall_limit_s, v->dbl())
+  G(madv_free_mode, (int)v->i64()) G(thp_einval, (int)v->i64()) G(hugetlb, (int)v->i64()) G(stable_sched, (int)v->i64()) G(hold_steps, v->u64()) G(sb_p, v->dbl()) G(entropy_fail, (int)v->i64()) G(wall_limit_s, v->dbl())
 #undef G
   if ((v = j.get("hot_funcs")) && v->t == JV::ARR) { c.hot_funcs.clear(); for (auto& x : v->a) c.hot_funcs.push_back(x.s); }
 }
@@ -204,6 +204,7 @@ void plan_apply_overrides(Plan& p, const std::map<std::string, std::string>& kv)
     else if (k == "hugetlb") p.cfg.hugetlb = atoi(v);
     else if (k == "stable_sched") p.cfg.stable_sched = atoi(v);
     else if (k == "hold_steps") p.cfg.hold_steps = strtoull(v, nullptr, 10);
+    else if (k == "sb_p") p.cfg.sb_p = atof(v);
     else if (k == "place_unaligned_p") p.cfg.place_unaligned_p = atof(v);
     else if (k == "auto_advance_every") p.auto_advance_every = strtoull(v, nullptr, 0);
     else if (k == "auto_advance_ms") p.auto_advance_ms = strtoull(v, nullptr, 0);
